@@ -32,6 +32,7 @@ def configs(tier):
             for shape in itertools.product(range(1, 4), repeat=dim):
                 out.append(dict(shape=list(shape)))
         out += [dict(shape=[4]), dict(shape=[5]), dict(shape=[4, 2]), dict(shape=[2, 4])]
+        out += [dict(shape=list(sh), history=True) for sh in ((3,), (2, 2), (3, 2), (1, 3), (2, 1, 2), (2, 2, 2))]
     else:
         for n in range(1, 13):
             out.append(dict(shape=[n]))
@@ -39,6 +40,9 @@ def configs(tier):
             out.append(dict(shape=list(shape)))
         for shape in itertools.product(range(1, 6), repeat=3):
             out.append(dict(shape=list(shape)))
+        for dim in (1, 2, 3):
+            for shape in itertools.product(range(1, 4), repeat=dim):
+                out.append(dict(shape=list(shape), history=True))
     return out
 
 
@@ -70,6 +74,16 @@ def body(cfg):
     shape = tuple(cfg["shape"])
     dim = len(shape)
     h = [S.real(f"h{d}", lo="1/1000", hi=1000) for d in range(dim)]
+    if cfg.get("history"):
+        # operators of another grid of the SAME shape but other voxel sizes were built (and used) earlier in this process
+        g = [S.real(f"g{d}", lo="1/1000", hi=1000) for d in range(dim)]
+        grid0 = darsia.Grid(shape, list(g))
+        u0 = S.array("u0", int(grid0.num_faces), lo=-10, hi=10)
+        darsia.FVDivergence(grid0).mat.dot(u0)
+        darsia.FVMass(grid0, "cells").mat.diagonal()
+        darsia.FVMass(grid0, "faces").mat.diagonal()
+        darsia.FVFullFaceReconstruction(grid0)(u0)
+        darsia.face_to_cell(grid0, u0)
     grid = darsia.Grid(shape, list(h))
     nc = int(np.prod(shape))
     nf_axis = [O.num_faces_axis(d, shape) for d in range(dim)]
@@ -237,4 +251,19 @@ def body(cfg):
                             acc = acc + u[g] / 4
                 ok.append(S.eq(fullu[f, e], acc))
     S.claim("tangential_component_is_quarter_sum_of_orthogonal_neighbours", S.and_(ok))
+    # the tangential operator called directly: list form and concatenated (block-wise stacked) form
+    if dim > 1:
+        T = darsia.FVTangentialFaceReconstruction(grid)
+        lst = T(u, False)
+        cat = T(u)
+        ok = [len(lst) == dim - 1, tuple(np.shape(cat)) == ((dim - 1) * nf,)]
+        if all(ok):
+            for d in range(dim):
+                perp = [e for e in range(dim) if e != d]
+                for j in O.faces(d, shape):
+                    f = O.face_id(d, j, shape)
+                    for i, e in enumerate(perp):
+                        ok.append(S.eq(lst[i][f], fullu[f, e]))
+                        ok.append(S.eq(cat[i * nf + f], fullu[f, e]))
+        S.claim("tangential_operator_list_and_concatenated_forms_agree_with_full_reconstruction", S.and_(ok))
     S.observe("full_flux", fullu)
